@@ -49,9 +49,10 @@ enum H {
     ObsI(Observer<i64>),
     ObsVar(Observer<Var<V>>),
     Expert(ExpertNode<i64>),
+    VarI(Var<i64>),
 }
 
-pub const SHAPES: [&str; 7] = ["var_var", "var_var_var", "bind_own_input", "self_map2", "closure_owns_var", "expert", "var_var_obs"];
+pub const SHAPES: [&str; 8] = ["var_var", "var_var_var", "bind_own_input", "self_map2", "closure_owns_var", "expert", "var_var_obs", "memo_in_bind"];
 
 struct Built {
     handles: Vec<(&'static str, H)>,
@@ -154,6 +155,22 @@ fn build(shape: &str, c: &Rc<Cell<isize>>) -> Built {
             handles.push(("obs", H::ObsI(e.watch().observe())));
             handles.push(("watch", H::NodeI(e.watch())));
             handles.push(("expert", H::Expert(e)));
+        }
+        "memo_in_bind" => {
+            // a memoised function moved into a bind closure: the usual way to use one
+            let x = st.var(v(1));
+            let sel = st.var(0i64);
+            let mut memo = st.weak_memoize_fn({
+                let xw = x.watch();
+                move |k: i64| xw.map(move |a| V(a.0 + k, a.1.clone()))
+            });
+            let b = sel.bind(move |s| memo(*s));
+            probes.push(("bind", probe(b.weak())));
+            probes.push(("x.watch", probe(x.watch().weak())));
+            handles.push(("obs(bind)", H::Obs(b.observe())));
+            handles.push(("bind", H::Node(b)));
+            handles.push(("sel", H::VarI(sel)));
+            handles.push(("x", H::VarV(x)));
         }
         _ => panic!("unknown shape"),
     }
